@@ -217,10 +217,15 @@ type Sess struct {
 
 // KeyName maps key bytes back to a role name for messages.
 func (s *Sess) KeyName(k string) string {
+	// several roles may alias one key: the smallest name, so that messages are deterministic
+	best := ""
 	for r, b := range s.Keys {
-		if string(b) == k {
-			return r
+		if string(b) == k && (best == "" || r < best) {
+			best = r
 		}
+	}
+	if best != "" {
+		return best
 	}
 	return fmt.Sprintf("%x", k)
 }
